@@ -56,7 +56,7 @@ InitState(t) ==
   [hashDB |-> {0}, hidx |-> [h \in 0..(MaxH(t) + 1) |-> IF h = 0 THEN 0 ELSE None],
    vidx |-> {0}, headRec |-> 0, addMark |-> None, rmMark |-> None, stateDisk |-> {0},
    executed |-> {}, latest |-> 0, future |-> [i \in Ids0(t) |-> None], verified |-> {},
-   pending |-> {}, todo |-> <<>>, res |-> "none"]
+   pending |-> {}, todo |-> <<>>, res |-> "none", fork |-> <<>>, sub |-> "none"]
 
 (* AddBlockOnChain(b): consensusVerify, then addBlockOnChain under the lock *)
 Begin(t, s, b) ==
@@ -67,23 +67,48 @@ Begin(t, s, b) ==
 
 (* decision structure of addBlockOnChain; cb = 1 when called from the on-chain callback for a
    future block (its result is not the result of the call) *)
-SetRes(s, cb, r) == IF cb = 1 THEN s.res ELSE r
+SetRes(s, cb, r) == IF cb = 0 THEN r ELSE s.res
+SetSub(s, cb, r) == IF cb = 2 THEN r ELSE s.sub
 AddOn(t, s, b, rest, cb) ==
-  IF b = s.latest \/ b \in s.hashDB THEN [s EXCEPT !.todo = rest, !.res = SetRes(s, cb, "Existed")]
+  IF b = s.latest \/ b \in s.hashDB THEN [s EXCEPT !.todo = rest, !.res = SetRes(s, cb, "Existed"), !.sub = SetSub(s, cb, "Existed")]
   ELSE IF b \notin s.verified /\ Par(t, b) \notin s.hashDB
-    THEN [s EXCEPT !.todo = rest, !.res = SetRes(s, cb, "Failed"), !.future[Par(t, b)] = b]
+    THEN [s EXCEPT !.todo = rest, !.res = SetRes(s, cb, "Failed"), !.sub = SetSub(s, cb, "Failed"), !.future[Par(t, b)] = b]
   ELSE IF b \notin s.verified /\ TxsOf(t, b) \cap s.executed # {}
-    THEN [s EXCEPT !.todo = rest, !.res = SetRes(s, cb, "Failed")]
+    THEN [s EXCEPT !.todo = rest, !.res = SetRes(s, cb, "Failed"), !.sub = SetSub(s, cb, "Failed")]
   ELSE LET s1 == [s EXCEPT !.verified = @ \cup {b}] IN
-    IF Par(t, b) = s1.latest THEN [s1 EXCEPT !.todo = InsertOps(b) \o rest, !.res = SetRes(s, cb, "Succ")]
-    ELSE IF Qn(t, b) < Qn(t, s1.latest) THEN [s1 EXCEPT !.todo = rest, !.res = SetRes(s, cb, "LessQN")]
-    ELSE IF Par(t, b) \notin s1.hashDB THEN [s1 EXCEPT !.todo = rest, !.res = SetRes(s, cb, "Failed")]
+    IF Par(t, b) = s1.latest THEN [s1 EXCEPT !.todo = InsertOps(b) \o rest, !.res = SetRes(s, cb, "Succ"), !.sub = SetSub(s, cb, "Succ")]
+    ELSE IF Qn(t, b) < Qn(t, s1.latest) THEN [s1 EXCEPT !.todo = rest, !.res = SetRes(s, cb, "LessQN"), !.sub = SetSub(s, cb, "LessQN")]
+    ELSE IF Par(t, b) \notin s1.hashDB THEN [s1 EXCEPT !.todo = rest, !.res = SetRes(s, cb, "Failed"), !.sub = SetSub(s, cb, "Failed")]
     ELSE IF Qn(t, b) > Qn(t, s1.latest)
       THEN [s1 EXCEPT !.todo = << <<"RemLoop", Par(t, b), Hgt(t, s1.latest)>>, <<"AddOn", b, cb>> >> \o rest]
     ELSE LET ln == s1.hidx[Hgt(t, Par(t, b)) + 1] IN
-      IF ln = None THEN [s1 EXCEPT !.todo = rest, !.res = SetRes(s, cb, "Failed")]
-      ELSE IF PvGreater(t, ln, b) THEN [s1 EXCEPT !.todo = rest, !.res = SetRes(s, cb, "LessQN")]
+      IF ln = None THEN [s1 EXCEPT !.todo = rest, !.res = SetRes(s, cb, "Failed"), !.sub = SetSub(s, cb, "Failed")]
+      ELSE IF PvGreater(t, ln, b) THEN [s1 EXCEPT !.todo = rest, !.res = SetRes(s, cb, "LessQN"), !.sub = SetSub(s, cb, "LessQN")]
       ELSE [s1 EXCEPT !.todo = << <<"RemLoop", Par(t, b), Hgt(t, s1.latest)>>, <<"AddOn", b, cb>> >> \o rest]
+
+RECURSIVE PathDown(_, _, _)
+PathDown(t, a, x) == IF x = a THEN <<a>> ELSE PathDown(t, a, Par(t, x)) \o <<x>>     \* a ancestor of x
+
+(* --- fork switch of the sync processor (fork_block.go: triggerOnChain) -------------------
+   p = <<a, b1, ..., bk>>: the fork, rooted at block a of the local chain; the fork database is
+   indexed by height. *)
+ForkBlockAt(t, p, h) == IF \E i \in 1..Len(p) : Hgt(t, p[i]) = h
+                          THEN p[CHOOSE i \in 1..Len(p) : Hgt(t, p[i]) = h] ELSE None
+RECURSIVE CommonIdx(_, _, _, _)
+CommonIdx(t, s, p, i) ==       \* how many leading blocks of the fork are on the local chain
+  IF i > Len(p) THEN Len(p)
+  ELSE IF s.hidx[Hgt(t, p[i])] = p[i] THEN CommonIdx(t, s, p, i + 1) ELSE i - 1
+BeginFork(t, s, p) ==
+  LET top == p[Len(p)]  i == CommonIdx(t, s, p, 1) IN
+  IF Qn(t, top) < Qn(t, s.latest) \/ i = 0 THEN [s EXCEPT !.res = "ForkNoop"]
+  ELSE LET ca == p[i]
+           fb == ForkBlockAt(t, p, Hgt(t, ca) + 1)
+           lb == s.hidx[Hgt(t, ca) + 1]
+           keep == IF Hgt(t, ca) < Hgt(t, top) /\ Hgt(t, ca) < Hgt(t, s.latest) /\ fb # None /\ lb # None
+                     THEN PvGreater(t, lb, fb) ELSE TRUE
+       IN IF Qn(t, top) = Qn(t, s.latest) /\ keep THEN [s EXCEPT !.res = "ForkNoop"]
+          ELSE [s EXCEPT !.fork = p, !.res = "none", !.sub = "none",
+                         !.todo = << <<"RemLoop", ca, Hgt(t, s.latest)>>, <<"ForkAdd", Hgt(t, p[1]) + 1, 0>> >>]
 
 (* one micro-operation *)
 Step(t, s) ==
@@ -117,6 +142,18 @@ Step(t, s) ==
     [] op[1] = "UnMark"      -> IF TxsOf(t, b) = {} THEN [s EXCEPT !.todo = rest]
                                 ELSE [s EXCEPT !.executed = @ \ TxsOf(t, b), !.pending = @ \cup TxsOf(t, b), !.todo = rest]
     [] op[1] = "EraseRm"     -> [s EXCEPT !.rmMark = None, !.todo = rest]
+    [] op[1] = "ForkAdd" ->         \* triggerOnChain: add the fork's block of height op[2], then go on
+         IF op[2] > Hgt(t, s.fork[Len(s.fork)]) THEN [s EXCEPT !.todo = rest, !.res = "ForkDone"]
+         ELSE LET x == ForkBlockAt(t, s.fork, op[2]) IN
+              IF x = None THEN [s EXCEPT !.todo = rest, !.res = "ForkFail"]
+              ELSE IF Par(t, x) \notin s.hashDB             \* tryAddBlockOnChain -> consensusVerify
+                THEN [s EXCEPT !.todo = rest, !.res = "ForkFail", !.future[Par(t, x)] = x]
+              ELSE IF x \in s.hashDB THEN [s EXCEPT !.todo = rest, !.res = "ForkFail"]
+              ELSE [s EXCEPT !.sub = "none",
+                             !.todo = << <<"AddOn", x, 2>>, <<"ForkNext", op[2] + 1, 0>> >> \o rest]
+    [] op[1] = "ForkNext" ->
+         IF s.sub = "Succ" THEN [s EXCEPT !.todo = << <<"ForkAdd", op[2], 0>> >> \o rest]
+         ELSE [s EXCEPT !.todo = rest, !.res = "ForkFail"]
     [] op[1] = "RecRm"       -> IF s.rmMark # None
                                   THEN [s EXCEPT !.todo = RemoveOps(s.rmMark) \o << <<"EraseRm", 0, 0>> >> \o rest]
                                   ELSE [s EXCEPT !.todo = rest]
@@ -133,11 +170,12 @@ StepsToEnd(t, s) == IF s.todo = <<>> THEN 0 ELSE 1 + StepsToEnd(t, Step(t, s))
 (* process death: volatile state is lost; then initBlockChain + ensureChainConsistency *)
 CrashState(s) ==
   [s EXCEPT !.latest = s.headRec, !.future = [i \in DOMAIN s.future |-> None], !.verified = {},
-            !.pending = {}, !.res = "none",
+            !.pending = {}, !.res = "none", !.fork = <<>>, !.sub = "none",
             !.todo = (IF s.addMark # None THEN RemoveOps(s.addMark) \o << <<"EraseAdd", 0, 0>> >> ELSE <<>>)
                      \o << <<"RecRm", 0, 0>> >>]
 
 Deliver(t, s, b) == RunAll(t, Begin(t, s, b))
+ForkSwitch(t, s, p) == RunAll(t, BeginFork(t, s, p))
 
 (* every state the stores can be in after AddBlockOnChain(b) was interrupted by a process death
    before its j-th micro-operation and the node restarted (recovery itself uninterrupted) *)
